@@ -353,8 +353,14 @@ def run(ctx):
         state['i'] += 1
         return state['i'] % nworkers == worker
 
+    import time
+    t_start = time.time()          # the budget counts from here (imports can be slow on a loaded machine)
+
+    def time_left(b):
+        return b - (time.time() - t_start)
+
     def out_of_time():
-        if ctx.time_left(budget) < 0:
+        if time_left(budget) < 0:
             state['complete'] = False
             return True
         return False
@@ -432,13 +438,13 @@ def run(ctx):
         all_masks = list(range(128))
         nsample = ctx.scale(40000, 1400000)
         done = 0
-        while done < nsample and ctx.time_left(budget + (0 if ctx.quick else 60)) > 0:
+        while done < nsample and time_left(budget + (0 if ctx.quick else 60)) > 0:
             proto = rng.choice([2, 3, 4])
             dmask = rng.randrange(128)
             world = World46(ctx, proto, False, dmask, all_masks)
             try:
                 for _ in range(min(4000, nsample - done)):
-                    if ctx.time_left(budget + (0 if ctx.quick else 60)) < 0:
+                    if time_left(budget + (0 if ctx.quick else 60)) < 0:
                         break
                     if rng.random() < 0.02:
                         world.session.default_fetch_size = world.session_fetch_size = rng.choice([5000, None, 123])
